@@ -91,6 +91,7 @@ impl Check for C09 {
         let chain = t.flag();
         // an earlier rewrite on the same thread (a file that is not modified and refers to a map of its own) must not matter
         let warmup = t.chance(60);
+        let big = t.chance(6);
         let mut cfg = gen_cfg(&mut t, &CfgOpts { fixed_prefix: true, rich: true });
         let mut j = cfg.json.clone();
         j["comments"] = json!(comments);
@@ -100,8 +101,16 @@ impl Check for C09 {
         o.allow_module = true;
         o.layout_noise = true;
         let p = gen_program_t(&mut t, &o);
-        let tags: Vec<&str> = p.tags.iter().copied().collect();
-        json!({"src": p.src, "cfg": cfg.json, "file": file, "tags": tags, "warmup": warmup})
+        let mut tags: Vec<&str> = p.tags.iter().copied().collect();
+        let mut src = p.src;
+        if big {
+            // a file of more than 256 KiB (a bundle): the padding is a trailing comment, the program is the same
+            tags.push("big-file");
+            src.push_str("\n/* ");
+            src.push_str(&"padding of a big bundle ".repeat(11_500));
+            src.push_str("*/\n");
+        }
+        json!({"src": src, "cfg": cfg.json, "file": file, "tags": tags, "warmup": warmup})
     }
     fn rule(&self) -> String {
         "programs with layout noise (multi-line operands, operators at line ends, CRLF, tabs, non-ASCII BMP and astral characters in comments/strings, hashbang) x any \
@@ -227,9 +236,25 @@ impl Check for C09 {
             })
             .collect();
         ranges.sort_by_key(|r| r.4);
+        // comments of the input are printed where the printer finds room for them (a comment that follows a block can end
+        // up inside the injected declaration of that block): their own mappings are not mappings of injected code
+        let comment_ranges: Vec<((u32, u32), (u32, u32))> = op
+            .comments
+            .iter()
+            .map(|(off, is_block, text)| {
+                let start = *off as usize;
+                let end = start + text.len() + if *is_block { 4 } else { 2 };
+                let (sl, sc, _) = out_table.locate(start);
+                let (el, ec, _) = out_table.locate(end.min(body.len()));
+                ((sl, sc), (el, ec))
+            })
+            .collect();
         for s in &map.segs {
             let Some((_, l, _, _)) = s.src else { continue };
             let p = (s.gen_line, s.gen_col);
+            if comment_ranges.iter().any(|(a, b)| *a <= p && p <= *b) {
+                continue;
+            }
             if let Some(r) = ranges.iter().find(|r| r.0 <= p && p < r.1) {
                 if l < r.2 || l > r.3 {
                     return Outcome::fail(
